@@ -151,7 +151,7 @@ def shard(args):
 
 
 def run(ctx):
-    n = 200 if ctx.tier == 'quick' else 12000
+    n = 200 if ctx.tier == 'quick' else 100000
     shards = [{'shard': i, 'n': n} for i in range(common.NCPU)]
     results = common.run_shards('checks.c16', shards, timeout=3000)
     common.merge_shards(ctx, results)
